@@ -51,7 +51,7 @@ PROP = dict(
              "has its tagged field in an ANONYMOUS EMBEDDED STRUCT of the holder, one or two levels deep, by value (flags e1 e2: reflect.StructOf with Anonymous fields, an untagged field of its own on "
              "every level, no top-level tag mentioning validate; the corpus also has four Go-declared holders with Go's own embedding, flag g<n>): the container flattens embedded structs into the "
              "holder's properties, so start-up must fail iff the constraint is violated exactly as for a field of the holder itself (validate-iff / expr-result / bind-direct); "
-             "30% of the holders also carry an optional wire dependency (both property groups exist) and are started 4 times, every start must agree (oracle start-unstable); non-trivial = all; distinct = distinct scenario lines",
+             "after these, one further case per twelve binds a POINT IN TIME (label time; oracle-only: time.Time is outside the model's types): fields of type time.Time / *time.Time / a named type over time.Time and a pointer to it, bound by prefix from a YAML timestamp (yaml hands over a time.Time, no layout involved) or from a text with a `timeLayout` argument (2006-01-02, RFC 3339, 20060102, 02/01/2006, 2006-01-02T15:04:05), through ${k}, from a literal in the tag, absent and optional, a text without a layout / not of the layout; two in three carry a validate argument (required, bare, omitempty, gt, required lt): the harness decodes with mapstructure + the same time hook and hands the bound value to validator.Struct / Var exactly as declared - the validator answers a point in time handed over as a struct with an error, so start-up fails (validate-iff), and a PANIC of the container where the direct validator gives a verdict is reported as validate-panic (never swallowed; also what C09 demands of Run); 30% of the holders also carry an optional wire dependency (both property groups exist) and are started 4 times, every start must agree (oracle start-unstable); non-trivial = all; distinct = distinct scenario lines",
         trusted_base=COMMON_TB + ["the go/ast facts translator for Facts.builtinProcessors / orderConsts",
                                   "expr-lang/expr and go-playground/validator themselves (opaque; called directly by the oracle)",
                                   "strconv2 / mapstructure as modelled in Ioc.Value (validated by the correspondence)"],
